@@ -38,7 +38,7 @@ Inductive phase := PIdle | PJoinSent | PJoined | PSyncSent.
    PSyncSent : SyncGroup sent: parked ([m_inbox] = None) or reply on the wire *)
 
 Inductive reply :=
-| RpJoin (code : Z) (gen id : nat)
+| RpJoin (code : Z) (gen : nat)     (* the member id in the reply is [m_focus] *)
 | RpSync (code : Z).
 
 Record member := mkM {
@@ -50,23 +50,24 @@ Record member := mkM {
   m_rejoin : bool;          (* need_rejoin(): _rejoin_needed_fut done, or no assignment yet *)
   m_ck : ckst;
   m_hb : bool;              (* heartbeat task running *)
-  m_wait : nat;             (* the id the parked JoinGroup sits on (= m_id, or the id generated for "") *)
+  m_focus : nat;            (* the id the JoinGroup exchange in progress is about: the id sent, or the one
+                               the coordinator generated for ""; the member id in the reply *)
   m_inbox : option reply;   (* JoinGroup / SyncGroup reply on the wire *)
   m_hbin : option Z;        (* Heartbeat reply on the wire *)
   m_cmin : option Z         (* OffsetCommit reply on the wire *)
 }.
 
-Definition set_live b m := mkM (m_name m) b (m_id m) (m_gen m) (m_ph m) (m_rejoin m) (m_ck m) (m_hb m) (m_wait m) (m_inbox m) (m_hbin m) (m_cmin m).
-Definition set_id x m := mkM (m_name m) (m_live m) x (m_gen m) (m_ph m) (m_rejoin m) (m_ck m) (m_hb m) (m_wait m) (m_inbox m) (m_hbin m) (m_cmin m).
-Definition set_gen g m := mkM (m_name m) (m_live m) (m_id m) g (m_ph m) (m_rejoin m) (m_ck m) (m_hb m) (m_wait m) (m_inbox m) (m_hbin m) (m_cmin m).
-Definition set_ph p m := mkM (m_name m) (m_live m) (m_id m) (m_gen m) p (m_rejoin m) (m_ck m) (m_hb m) (m_wait m) (m_inbox m) (m_hbin m) (m_cmin m).
-Definition set_rejoin b m := mkM (m_name m) (m_live m) (m_id m) (m_gen m) (m_ph m) b (m_ck m) (m_hb m) (m_wait m) (m_inbox m) (m_hbin m) (m_cmin m).
-Definition set_ck k m := mkM (m_name m) (m_live m) (m_id m) (m_gen m) (m_ph m) (m_rejoin m) k (m_hb m) (m_wait m) (m_inbox m) (m_hbin m) (m_cmin m).
-Definition set_hb b m := mkM (m_name m) (m_live m) (m_id m) (m_gen m) (m_ph m) (m_rejoin m) (m_ck m) b (m_wait m) (m_inbox m) (m_hbin m) (m_cmin m).
-Definition set_wait x m := mkM (m_name m) (m_live m) (m_id m) (m_gen m) (m_ph m) (m_rejoin m) (m_ck m) (m_hb m) x (m_inbox m) (m_hbin m) (m_cmin m).
-Definition set_inbox r m := mkM (m_name m) (m_live m) (m_id m) (m_gen m) (m_ph m) (m_rejoin m) (m_ck m) (m_hb m) (m_wait m) r (m_hbin m) (m_cmin m).
-Definition set_hbin r m := mkM (m_name m) (m_live m) (m_id m) (m_gen m) (m_ph m) (m_rejoin m) (m_ck m) (m_hb m) (m_wait m) (m_inbox m) r (m_cmin m).
-Definition set_cmin r m := mkM (m_name m) (m_live m) (m_id m) (m_gen m) (m_ph m) (m_rejoin m) (m_ck m) (m_hb m) (m_wait m) (m_inbox m) (m_hbin m) r.
+Definition set_live b m := mkM (m_name m) b (m_id m) (m_gen m) (m_ph m) (m_rejoin m) (m_ck m) (m_hb m) (m_focus m) (m_inbox m) (m_hbin m) (m_cmin m).
+Definition set_id x m := mkM (m_name m) (m_live m) x (m_gen m) (m_ph m) (m_rejoin m) (m_ck m) (m_hb m) (m_focus m) (m_inbox m) (m_hbin m) (m_cmin m).
+Definition set_gen g m := mkM (m_name m) (m_live m) (m_id m) g (m_ph m) (m_rejoin m) (m_ck m) (m_hb m) (m_focus m) (m_inbox m) (m_hbin m) (m_cmin m).
+Definition set_ph p m := mkM (m_name m) (m_live m) (m_id m) (m_gen m) p (m_rejoin m) (m_ck m) (m_hb m) (m_focus m) (m_inbox m) (m_hbin m) (m_cmin m).
+Definition set_rejoin b m := mkM (m_name m) (m_live m) (m_id m) (m_gen m) (m_ph m) b (m_ck m) (m_hb m) (m_focus m) (m_inbox m) (m_hbin m) (m_cmin m).
+Definition set_ck k m := mkM (m_name m) (m_live m) (m_id m) (m_gen m) (m_ph m) (m_rejoin m) k (m_hb m) (m_focus m) (m_inbox m) (m_hbin m) (m_cmin m).
+Definition set_hb b m := mkM (m_name m) (m_live m) (m_id m) (m_gen m) (m_ph m) (m_rejoin m) (m_ck m) b (m_focus m) (m_inbox m) (m_hbin m) (m_cmin m).
+Definition set_focus x m := mkM (m_name m) (m_live m) (m_id m) (m_gen m) (m_ph m) (m_rejoin m) (m_ck m) (m_hb m) x (m_inbox m) (m_hbin m) (m_cmin m).
+Definition set_inbox r m := mkM (m_name m) (m_live m) (m_id m) (m_gen m) (m_ph m) (m_rejoin m) (m_ck m) (m_hb m) (m_focus m) r (m_hbin m) (m_cmin m).
+Definition set_hbin r m := mkM (m_name m) (m_live m) (m_id m) (m_gen m) (m_ph m) (m_rejoin m) (m_ck m) (m_hb m) (m_focus m) (m_inbox m) r (m_cmin m).
+Definition set_cmin r m := mkM (m_name m) (m_live m) (m_id m) (m_gen m) (m_ph m) (m_rejoin m) (m_ck m) (m_hb m) (m_focus m) (m_inbox m) (m_hbin m) r.
 
 (* interpretation of one action of a translated dispatch chain; [rid] = member id carried by the reply *)
 Definition react1 (rid : nat) (m : member) (a : act) : member :=
@@ -126,7 +127,7 @@ Definition waiting_sync (m : member) : bool := ph_eqb (m_ph m) PSyncSent && is_n
 Definition bcast1 (m : member) (e : cev) : member :=
   match e with
   | EvPrepare => if waiting_sync m then set_inbox (Some (RpSync 27)) m else m
-  | EvJoinDone g => if waiting_join m then set_inbox (Some (RpJoin 0 g (m_wait m))) m else m
+  | EvJoinDone g => if waiting_join m then set_inbox (Some (RpJoin 0 g)) m else m
   | EvSyncDone => if waiting_sync m then set_inbox (Some (RpSync 0)) m else m
   end.
 Definition bcast (evs : list cev) (m : member) : member := fold_left bcast1 evs m.
@@ -177,7 +178,7 @@ Definition cm_code (c : coord) (m : member) : Z :=
   end.
 
 (* the three ways a JoinGroup / SyncGroup ends at the coordinator for the requester *)
-Inductive outcome := Immediate (r : reply) | Parked (x : nat).
+Inductive outcome := Immediate (x : nat) (r : reply) | Parked (x : nat).   (* x: the id the exchange is about *)
 
 (* JoinGroup for the (existing or new) id [x], after the id checks *)
 Definition join_known (c : coord) (x : nat) : coord * outcome * list cev :=
@@ -185,7 +186,7 @@ Definition join_known (c : coord) (x : nat) : coord * outcome * list cev :=
   let es1 := if isnew then c_ents c ++ [mkE x true false] else set_jp x true (c_ents c) in
   let c1 := mkC (c_gen c) (c_st c) es1 (remove_id x (c_pend c)) (c_leader c) in
   let immediate := (mkC (c_gen c) (c_st c) (set_jp x false es1) (c_pend c1) (c_leader c),
-                    Immediate (RpJoin 0 (c_gen c) x), []) in
+                    Immediate x (RpJoin 0 (c_gen c)), []) in
   match c_st c with
   | CEmpty => let (c2, o) := prepare_complete c1 in (c2, Parked x, o)
   | CStable => if isnew || (x =? c_leader c) then let (c2, o) := prepare_complete c1 in (c2, Parked x, o)
@@ -198,19 +199,19 @@ Definition join_known (c : coord) (x : nat) : coord * outcome * list cev :=
    generates for an empty member id *)
 Definition cjoin (c : coord) (id : nat) (v4 : bool) (y : nat) : coord * outcome * list cev :=
   if id =? 0 then
-    if v4 then (mkC (c_gen c) (c_st c) (c_ents c) (y :: c_pend c) (c_leader c), Immediate (RpJoin 79 0 y), [])
+    if v4 then (mkC (c_gen c) (c_st c) (c_ents c) (y :: c_pend c) (c_leader c), Immediate y (RpJoin 79 0), [])
     else join_known c y
-  else if negb (memb id (ids (c_ents c))) && negb (memb id (c_pend c)) then (c, Immediate (RpJoin 25 0 id), [])
+  else if negb (memb id (ids (c_ents c))) && negb (memb id (c_pend c)) then (c, Immediate id (RpJoin 25 0), [])
   else join_known c id.
 
 (* sync() *)
 Definition csync (c : coord) (id gen : nat) : coord * outcome * list cev :=
   let v := validate c id gen in
-  if negb (v =? 0)%Z then (c, Immediate (RpSync v), [])
+  if negb (v =? 0)%Z then (c, Immediate id (RpSync v), [])
   else match c_st c with
-       | CPreparing => (c, Immediate (RpSync 27), [])
-       | CStable => (c, Immediate (RpSync 0), [])
-       | CEmpty => (c, Immediate (RpSync 25), [])
+       | CPreparing => (c, Immediate id (RpSync 27), [])
+       | CStable => (c, Immediate id (RpSync 0), [])
+       | CEmpty => (c, Immediate id (RpSync 25), [])
        | CCompleting =>
            if id =? c_leader c then
              (mkC (c_gen c) CStable (clear_sp (c_ents c)) (c_pend c) (c_leader c), Parked id, [EvSyncDone])
@@ -248,20 +249,18 @@ Definition getm (i : nat) (ms : list member) : option member := find (fun m => m
 Definition updm (i : nat) (f : member -> member) (ms : list member) : list member :=
   map (fun m => if m_name m =? i then f m else m) ms.
 
-(* [m] is bound to the id [x]: holds it, waits on it with a parked JoinGroup, or a JoinGroup reply naming it
-   is on its way *)
-Definition names_id (r : option reply) (x : nat) : bool :=
-  match r with Some (RpJoin _ _ y) => y =? x | _ => false end.
+(* [m] is bound to the id [x]: holds it, or its JoinGroup exchange in progress is about it *)
 Definition bound (m : member) (x : nat) : bool :=
-  m_live m && ((m_id m =? x) || names_id (m_inbox m) x || (waiting_join m && (m_wait m =? x))).
+  m_live m && ((m_id m =? x) || (ph_eqb (m_ph m) PJoinSent && (m_focus m =? x))).
 Definition orphan (ms : list member) (e : entry) : bool := negb (existsb (fun m => bound m (e_id e)) ms).
 
 (* an id the coordinator may generate now: unused anywhere *)
 Definition fresh (s : state) (y : nat) : bool :=
   negb (y =? 0) && negb (memb y (ids (c_ents (s_c s)))) && negb (memb y (c_pend (s_c s)))
-  && forallb (fun m => negb (m_id m =? y) && negb (names_id (m_inbox m) y) && negb (m_wait m =? y)) (s_ms s).
+  && forallb (fun m => negb (m_id m =? y) && negb (m_focus m =? y)) (s_ms s).
 
-Definition recv_join (code : Z) (g x : nat) (m : member) : member :=
+Definition recv_join (code : Z) (g : nat) (m : member) : member :=
+  let x := m_focus m in
   if has ARetryJoin (joinRetryDispatch code) then
     set_ph PIdle (react x (joinRetryDispatch code) (set_inbox None m))     (* the loop sends the next JoinGroup *)
   else if has ASuccess (joinDispatch code) then
@@ -286,7 +285,7 @@ Definition ck_stale (k : ckst) : bool := match k with CkStale => true | _ => fal
 Definition can_commit (m : member) : bool := (m_id m =? 0) || negb (m_gen m =? 0).
 
 Definition apply_outcome (o : outcome) (m : member) : member :=
-  match o with Immediate r => set_inbox (Some r) m | Parked x => set_wait x (set_inbox None m) end.
+  match o with Immediate x r => set_focus x (set_inbox (Some r) m) | Parked x => set_focus x (set_inbox None m) end.
 
 Definition step (s : state) (l : label) : option state :=
   let c := s_c s in let ms := s_ms s in
@@ -303,7 +302,7 @@ Definition step (s : state) (l : label) : option state :=
              && ck_known (m_ck m) && m_rejoin m && (negb (m_id m =? 0) || fresh s y) then
             let sent := fun m => set_ph PJoinSent (set_hbin None (set_hb false m)) in
             if ck_stale (m_ck m) then
-              Some (mkS c (updm i (fun m => set_inbox (Some (RpJoin 16 0 (m_id m))) (sent m)) ms))
+              Some (mkS c (updm i (fun m => set_focus (m_id m) (set_inbox (Some (RpJoin 16 0)) (sent m))) ms))
             else match cjoin c (m_id m) v4 y with
                  | (c', o, evs) => Some (mkS c' (map (bcast evs) (updm i (fun m => apply_outcome o (sent m)) ms)))
                  end
@@ -315,7 +314,7 @@ Definition step (s : state) (l : label) : option state :=
       | Some m =>
           if m_live m then
             match m_ph m, m_inbox m with
-            | PJoinSent, Some (RpJoin code g x) => Some (mkS c (updm i (recv_join code g x) ms))
+            | PJoinSent, Some (RpJoin code g) => Some (mkS c (updm i (recv_join code g) ms))
             | PSyncSent, Some (RpSync code) => Some (mkS c (updm i (recv_sync code) ms))
             | _, _ => None
             end
@@ -333,7 +332,7 @@ Definition step (s : state) (l : label) : option state :=
                  | (c', o, evs) =>
                      Some (mkS c' (map (bcast evs)
                                      (updm i (fun m => match o with
-                                                       | Immediate r => set_inbox (Some r) (sent m)
+                                                       | Immediate _ r => set_inbox (Some r) (sent m)
                                                        | Parked _ => set_inbox None (sent m)
                                                        end) ms)))
                  end
@@ -416,9 +415,9 @@ Definition ostep (s : state) (o : obs) : option state :=
   | OJoinReq i v4 y mid => guard (with_m s i (fun m => m_id m =? mid)) (step s (LSendJoin i v4 y))
   | OJoinRep i code gen id =>
       guard (with_m s i (fun m => match m_inbox m with
-                                  | Some (RpJoin c g x) =>
+                                  | Some (RpJoin c g) =>
                                       (c =? code)%Z && (negb (code =? 0)%Z || (g =? gen))
-                                      && (negb ((code =? 0)%Z || (code =? 79)%Z) || (x =? id))
+                                      && (negb ((code =? 0)%Z || (code =? 79)%Z) || (m_focus m =? id))
                                   | _ => false end))
             (step s (LRecv i))
   | OSyncReq i mid gen =>
@@ -455,30 +454,67 @@ Fixpoint replay (n : nat) (s : state) (os : list obs) : nat * bool * state :=
   end.
 
 (* ------------------------------------------------------------------------------------------ *)
+(* what one member and the coordinator's relation to it look like: a record of finitely-valued fields.
+   The invariant and the variant read a member and the coordinator only through [absm]; the proofs check
+   the per-member facts for every value of this record by evaluation.                              *)
+
+Inductive ibk := INone | IJ (code : Z) | IS (code : Z).
+Record av := mkA {
+  a_live : bool; a_ph : phase; a_rejoin : bool; a_ck : ckst; a_hb : bool;
+  a_ib : ibk; a_hbin : option Z; a_cmin : option Z;
+  a_st : cstate; a_G0 : bool;                                   (* coordinator state; its generation is 0 *)
+  a_idz : bool; a_id_e : bool; a_id_p : bool; a_id_jp : bool; a_id_sp : bool;
+      (* m_id: = 0, in the table, pending, its parked-JoinGroup flag, its parked-SyncGroup flag *)
+  a_genz : bool; a_gen_eq : bool; a_gen_le : bool;              (* m_gen: = 0, = c_gen, <= c_gen *)
+  a_fz : bool; a_f_e : bool; a_f_p : bool; a_f_jp : bool; a_f_sp : bool; a_f_id : bool;
+      (* the id of the JoinGroup exchange in progress (0 outside PJoinSent): the same, and: = m_id *)
+  a_gz : bool; a_g_eq : bool; a_g_le : bool                     (* generation in the JoinGroup reply (0 if none) *)
+}.
+
+Definition ent_jp (c : coord) (x : nat) : bool := match find_ent x (c_ents c) with Some e => e_jp e | None => false end.
+Definition ent_sp (c : coord) (x : nat) : bool := match find_ent x (c_ents c) with Some e => e_sp e | None => false end.
+Definition focus_of (m : member) : nat := if ph_eqb (m_ph m) PJoinSent then m_focus m else 0.
+Definition rgen_of (m : member) : nat := match m_inbox m with Some (RpJoin _ g) => g | _ => 0 end.
+Definition ib_of (m : member) : ibk :=
+  match m_inbox m with None => INone | Some (RpJoin c _) => IJ c | Some (RpSync c) => IS c end.
+
+Definition absm (c : coord) (m : member) : av :=
+  let f := focus_of m in let g := rgen_of m in
+  mkA (m_live m) (m_ph m) (m_rejoin m) (m_ck m) (m_hb m) (ib_of m) (m_hbin m) (m_cmin m)
+      (c_st c) (c_gen c =? 0)
+      (m_id m =? 0) (memb (m_id m) (ids (c_ents c))) (memb (m_id m) (c_pend c)) (ent_jp c (m_id m)) (ent_sp c (m_id m))
+      (m_gen m =? 0) (m_gen m =? c_gen c) (m_gen m <=? c_gen c)
+      (f =? 0) (memb f (ids (c_ents c))) (memb f (c_pend c)) (ent_jp c f) (ent_sp c f) (f =? m_id m)
+      (g =? 0) (g =? c_gen c) (g <=? c_gen c).
+
+Definition ck_ok (k : ckst) : bool := match k with CkOk => true | _ => false end.
+Definition zmem (x : Z) (l : list Z) : bool := existsb (Z.eqb x) l.
+Definition opt_in (o : option Z) (l : list Z) : bool := match o with None => true | Some c => zmem c l end.
+Definition ok_or_none (o : option Z) : bool := match o with None => true | Some c => (c =? 0)%Z end.
+Definition join_codes : list Z := [0; 16; 25; 79]%Z.
+Definition probe_codes : list Z := [0; 16; 22; 25; 27]%Z.
+
+Definition a_waiting_join (a : av) : bool := ph_eqb (a_ph a) PJoinSent && match a_ib a with INone => true | _ => false end.
+Definition a_waiting_sync (a : av) : bool := ph_eqb (a_ph a) PSyncSent && match a_ib a with INone => true | _ => false end.
+Definition a_can_commit (a : av) : bool := a_idz a || negb (a_genz a).
+
+(* ---- converged ---- *)
+Definition settled_a (a : av) : bool :=
+  negb (a_live a) ||
+  (ph_eqb (a_ph a) PIdle && negb (a_rejoin a) && a_hb a && ck_ok (a_ck a) && match a_ib a with INone => true | _ => false end
+   && negb (a_idz a) && a_id_e a && a_gen_eq a && ok_or_none (a_hbin a) && ok_or_none (a_cmin a)).
+Definition settled (c : coord) (m : member) : bool := settled_a (absm c m).
 (* converged: the coordinator is Stable (or Empty with nobody alive), every live member is settled in its
    generation with the heartbeat task running and nothing but successful heartbeat / commit replies on the
    wire, and every id in the table is held by a live member *)
-Definition ok_or_none (o : option Z) : bool := match o with None => true | Some c => (c =? 0)%Z end.
-Definition ck_ok (k : ckst) : bool := match k with CkOk => true | _ => false end.
-Definition settled (c : coord) (m : member) : bool :=
-  negb (m_live m) ||
-  (ph_eqb (m_ph m) PIdle && negb (m_rejoin m) && m_hb m && ck_ok (m_ck m) && is_none (m_inbox m)
-   && negb (m_id m =? 0) && memb (m_id m) (ids (c_ents c)) && (m_gen m =? c_gen c)
-   && ok_or_none (m_hbin m) && ok_or_none (m_cmin m)).
 Definition converged_b (s : state) : bool :=
   (cstate_eqb (c_st (s_c s)) CStable || cstate_eqb (c_st (s_c s)) CEmpty)
   && forallb (settled (s_c s)) (s_ms s)
   && forallb (fun e => negb (orphan (s_ms s) e) && negb (e_jp e) && negb (e_sp e)) (c_ents (s_c s)).
 
-(* ------------------------------------------------------------------------------------------ *)
-(* invariant of the quiet period (boolean; evaluated on the state every replay starts from)     *)
-
-Definition zmem (x : Z) (l : list Z) : bool := existsb (Z.eqb x) l.
-Definition opt_in (o : option Z) (l : list Z) : bool := match o with None => true | Some c => zmem c l end.
+(* ---- invariant ---- *)
 Fixpoint nodupb (l : list nat) : bool :=
   match l with [] => true | x :: r => negb (memb x r) && nodupb r end.
-Definition ent_jp (c : coord) (x : nat) : bool := match find_ent x (c_ents c) with Some e => e_jp e | None => false end.
-Definition ent_sp (c : coord) (x : nat) : bool := match find_ent x (c_ents c) with Some e => e_sp e | None => false end.
 
 Definition wf_c (c : coord) : bool :=
   nodupb (ids (c_ents c)) && negb (memb 0 (ids (c_ents c))) && negb (memb 0 (c_pend c))
@@ -491,143 +527,155 @@ Definition wf_c (c : coord) : bool :=
   && (match c_st c with CCompleting | CStable => memb (c_leader c) (ids (c_ents c)) && negb (c_gen c =? 0) | _ => true end)
   && negb (ent_sp c (c_leader c)).
 
-Definition join_codes : list Z := [0; 16; 25; 79]%Z.
-Definition probe_codes : list Z := [0; 16; 22; 25; 27]%Z.
-
-(* a live member alone *)
-Definition wf_m (m : member) : bool :=
-  negb (m_live m) ||
-  ((match m_ph m, m_inbox m with
-    | PIdle, None => true
-    | PJoined, None => negb (m_id m =? 0) && negb (m_gen m =? 0) && ck_known (m_ck m)
-    | PJoinSent, None => ck_ok (m_ck m) && negb (m_wait m =? 0) && ((m_id m =? m_wait m) || (m_id m =? 0))
-    | PJoinSent, Some (RpJoin c g x) =>
-        zmem c join_codes && ck_known (m_ck m)
-        && (negb (c =? 16)%Z || ((x =? m_id m) && negb (ck_ok (m_ck m))))
-        && (negb (c =? 25)%Z || ((x =? m_id m) && negb (x =? 0)))
-        && (negb (c =? 79)%Z || ((m_id m =? 0) && negb (x =? 0)))
-        && (negb (c =? 0)%Z || (negb (x =? 0) && negb (g =? 0) && ((m_id m =? x) || (m_id m =? 0))))
-    | PSyncSent, None => negb (m_id m =? 0) && negb (m_gen m =? 0) && ck_ok (m_ck m)
-    | PSyncSent, Some (RpSync c) => zmem c probe_codes && negb (m_id m =? 0) && negb (m_gen m =? 0)
+(* a live member alone and against the coordinator *)
+Definition wf_a (a : av) : bool :=
+  negb (a_live a) ||
+  ((match a_ph a, a_ib a with
+    | PIdle, INone => true
+    | PJoined, INone => negb (a_idz a) && negb (a_genz a) && ck_known (a_ck a)
+    | PJoinSent, INone => ck_ok (a_ck a) && negb (a_fz a) && (a_f_id a || a_idz a)
+    | PJoinSent, IJ c =>
+        zmem c join_codes && ck_known (a_ck a)
+        && (negb (c =? 16)%Z || (a_f_id a && negb (ck_ok (a_ck a))))
+        && (negb (c =? 25)%Z || (a_f_id a && negb (a_fz a)))
+        && (negb (c =? 79)%Z || (a_idz a && negb (a_fz a)))
+        && (negb (c =? 0)%Z || (negb (a_fz a) && negb (a_gz a) && (a_f_id a || a_idz a)))
+    | PSyncSent, INone => negb (a_idz a) && negb (a_genz a) && ck_ok (a_ck a)
+    | PSyncSent, IS c => zmem c probe_codes && negb (a_idz a) && negb (a_genz a)
     | _, _ => false
     end)
-   && (ph_eqb (m_ph m) PIdle || (is_none (m_cmin m) && negb (m_hb m) && is_none (m_hbin m)))
-   && (ph_eqb (m_ph m) PIdle || ph_eqb (m_ph m) PSyncSent || m_rejoin m)
-   && (m_hb m || is_none (m_hbin m))
-   && (m_rejoin m || negb (ph_eqb (m_ph m) PIdle) || (m_hb m && negb (m_id m =? 0) && negb (m_gen m =? 0)))
-   && ((m_gen m =? 0) || negb (m_id m =? 0))
-   && (can_commit m || (negb (m_hb m) && is_none (m_cmin m)))
-   && (negb (ck_stale (m_ck m))
-       || (opt_in (m_hbin m) [16%Z] && opt_in (m_cmin m) [16%Z]
-           && match m_inbox m with None => true | Some (RpJoin c _ _) => (c =? 16)%Z | Some (RpSync c) => (c =? 16)%Z end))
-   && opt_in (m_hbin m) probe_codes && opt_in (m_cmin m) probe_codes).
-
-(* a live member against the coordinator *)
-Definition coh (c : coord) (m : member) : bool :=
-  negb (m_live m) ||
-  ((negb (waiting_join m) || ent_jp c (m_wait m))
-   && (negb (waiting_sync m) || (ent_sp c (m_id m) && (m_gen m =? c_gen c)))
-   && (match m_inbox m with
-       | Some (RpJoin 79%Z _ x) => memb x (c_pend c)
-       | Some (RpJoin 0%Z g x) => (g <=? c_gen c) && negb (memb x (c_pend c))
+   && (ph_eqb (a_ph a) PIdle || (is_none (a_cmin a) && negb (a_hb a) && is_none (a_hbin a)))
+   && (ph_eqb (a_ph a) PIdle || ph_eqb (a_ph a) PSyncSent || a_rejoin a)
+   && (a_hb a || is_none (a_hbin a))
+   && (a_rejoin a || negb (ph_eqb (a_ph a) PIdle) || (a_hb a && negb (a_idz a) && negb (a_genz a)))
+   && (a_genz a || negb (a_idz a))
+   && (a_can_commit a || (negb (a_hb a) && is_none (a_cmin a)))
+   && (negb (ck_stale (a_ck a))
+       || (opt_in (a_hbin a) [16%Z] && opt_in (a_cmin a) [16%Z]
+           && match a_ib a with INone => true | IJ c => (c =? 16)%Z | IS c => (c =? 16)%Z end))
+   && opt_in (a_hbin a) probe_codes && opt_in (a_cmin a) probe_codes).
+Definition coh_a (a : av) : bool :=
+  negb (a_live a) ||
+  ((negb (a_waiting_join a) || a_f_jp a)
+   && (negb (a_waiting_sync a) || (a_id_sp a && a_gen_eq a))
+   && (match a_ib a with
+       | IJ 79%Z => a_f_p a
+       | IJ 0%Z => a_g_le a && negb (a_f_p a)
        | _ => true end)
-   && (negb (memb (m_id m) (c_pend c)) || (m_gen m =? 0))
-   && (m_gen m <=? c_gen c)).
+   && (negb (a_id_p a) || a_genz a)
+   && a_gen_le a).
+Definition wf_m (c : coord) (m : member) : bool := wf_a (absm c m).
+Definition coh (c : coord) (m : member) : bool := coh_a (absm c m).
 
+(* two live members are never bound to the same id *)
+Fixpoint pairwise {A} (p : A -> A -> bool) (l : list A) : bool :=
+  match l with [] => true | x :: r => forallb (p x) r && pairwise p r end.
+Definition disjoint_m (a b : member) : bool :=
+  negb (bound b (m_id a) && negb (m_id a =? 0)) && negb (bound b (focus_of a) && m_live a && negb (focus_of a =? 0))
+  || negb (m_live a).
 Definition inv_b (s : state) : bool :=
-  wf_c (s_c s) && forallb wf_m (s_ms s) && forallb (coh (s_c s)) (s_ms s) && nodupb (map m_name (s_ms s)).
+  wf_c (s_c s) && forallb (wf_m (s_c s)) (s_ms s) && forallb (coh (s_c s)) (s_ms s)
+  && nodupb (map m_name (s_ms s)) && pairwise disjoint_m (s_ms s).
 
 (* ------------------------------------------------------------------------------------------ *)
 (* the variant                                                                                 *)
 
-Definition member_eqb (a b : member) : bool :=
-  (m_name a =? m_name b) && Bool.eqb (m_live a) (m_live b) && (m_id a =? m_id b) && (m_gen a =? m_gen b)
-  && ph_eqb (m_ph a) (m_ph b) && Bool.eqb (m_rejoin a) (m_rejoin b)
-  && (match m_ck a, m_ck b with CkNone, CkNone | CkStale, CkStale | CkOk, CkOk => true | _, _ => false end)
-  && Bool.eqb (m_hb a) (m_hb b) && (m_wait a =? m_wait b)
-  && (match m_inbox a, m_inbox b with
-      | None, None => true
-      | Some (RpJoin c g x), Some (RpJoin c' g' x') => (c =? c')%Z && (g =? g') && (x =? x')
-      | Some (RpSync c), Some (RpSync c') => (c =? c')%Z
-      | _, _ => false end)
-  && (match m_hbin a, m_hbin b with None, None => true | Some x, Some y => (x =? y)%Z | _, _ => false end)
-  && (match m_cmin a, m_cmin b with None, None => true | Some x, Some y => (x =? y)%Z | _, _ => false end).
+(* a reply that tells the member nothing: every action of its chain leaves the member as it is *)
+Definition effectless1 (a : av) (x : act) : bool :=
+  match x with
+  | ACoordinatorDead => negb (ck_known (a_ck a))
+  | ARequestRejoin => a_rejoin a
+  | AResetGeneration => a_idz a && a_genz a && a_rejoin a
+  | ASetMemberId => false
+  | ARaiseSame | ARaiseCode _ | ARaiseUnexpected | ARaiseOther => negb (a_live a)
+  | _ => true
+  end.
+Definition hb_silent_a (a : av) (code : Z) : bool :=
+  forallb (effectless1 a) (heartbeatDispatch code) && negb (a_idz a && a_hb a).
+Definition cm_silent_a (a : av) (code : Z) : bool := forallb (effectless1 a) (commitDispatch code).
 
-(* a heartbeat / commit reply that tells the member nothing: processing it only empties the slot *)
-Definition hb_silent (m : member) (code : Z) : bool := member_eqb (recv_hb code m) (set_hbin None m).
-Definition cm_silent (m : member) (code : Z) : bool := member_eqb (recv_cm code m) (set_cmin None m).
+Definition validate_a (idz id_e gen_eq : bool) : Z :=
+  if negb id_e || idz then 25%Z else if negb gen_eq then 22%Z else 0%Z.
+Definition hb_code_a (a : av) : Z :=
+  if ck_stale (a_ck a) then 16%Z
+  else let v := validate_a (a_idz a) (a_id_e a) (a_gen_eq a) in
+       if negb (v =? 0)%Z then v else match a_st a with CPreparing | CCompleting => 27%Z | _ => 0%Z end.
+Definition cm_code_a (a : av) : Z :=
+  if ck_stale (a_ck a) then 16%Z
+  else if a_idz a && a_genz a then (if cstate_eqb (a_st a) CEmpty then 0%Z else 25%Z)
+  else let v := validate_a (a_idz a) (a_id_e a) (a_gen_eq a) in
+       if negb (v =? 0)%Z then v else match a_st a with CCompleting => 27%Z | _ => 0%Z end.
 
 (* no-op steps: a heartbeat or commit exchange whose reply changes nothing in the member *)
 Definition noop_b (s : state) (l : label) : bool :=
   match l with
-  | LHbSend i => with_m s i (fun m => hb_silent m (hb_code (s_c s) m))
-  | LHbRecv i => with_m s i (fun m => match m_hbin m with Some c => hb_silent m c | None => false end)
-  | LCmSend i => with_m s i (fun m => cm_silent m (cm_code (s_c s) m))
-  | LCmRecv i => with_m s i (fun m => match m_cmin m with Some c => cm_silent m c | None => false end)
+  | LHbSend i => with_m s i (fun m => hb_silent_a (absm (s_c s) m) (hb_code (s_c s) m))
+  | LHbRecv i => with_m s i (fun m => match m_hbin m with Some c => hb_silent_a (absm (s_c s) m) c | None => false end)
+  | LCmSend i => with_m s i (fun m => cm_silent_a (absm (s_c s) m) (cm_code (s_c s) m))
+  | LCmRecv i => with_m s i (fun m => match m_cmin m with Some c => cm_silent_a (absm (s_c s) m) c | None => false end)
   | _ => false
   end.
 
 Definition resets (l : list act) : bool := has AResetGeneration l.
-Definition doomed (m : member) : bool :=
-  (match m_hbin m with Some c => resets (heartbeatDispatch c) | None => false end)
-  || (match m_cmin m with Some c => resets (commitDispatch c) | None => false end)
-  || (match m_inbox m with
-      | Some (RpSync c) => resets (syncDispatch c)
-      | Some (RpJoin c _ _) => negb (has ARetryJoin (joinRetryDispatch c)) && resets (joinDispatch c)
-      | None => false end).
+Definition doomed_a (a : av) : bool :=
+  (match a_hbin a with Some c => resets (heartbeatDispatch c) | None => false end)
+  || (match a_cmin a with Some c => resets (commitDispatch c) | None => false end)
+  || (match a_ib a with
+      | IS c => resets (syncDispatch c)
+      | IJ c => negb (has ARetryJoin (joinRetryDispatch c)) && resets (joinDispatch c)
+      | INone => false end).
 
 Inductive mclass := KDead | KUnattached | KInconsistent | KConsistent.
-Definition cls (c : coord) (m : member) : mclass :=
-  if negb (m_live m) then KDead
-  else if waiting_join m then (if memb (m_wait m) (ids (c_ents c)) then KConsistent else KUnattached)
-  else match m_inbox m with
-       | Some (RpJoin 0%Z g x) =>
-           if memb x (ids (c_ents c)) then (if (g =? c_gen c) && negb (ent_jp c x) then KConsistent else KInconsistent)
-           else KUnattached
-       | _ => if negb (m_id m =? 0) && memb (m_id m) (ids (c_ents c)) then
-                (if (m_gen m =? c_gen c) && negb (ent_jp c (m_id m)) && negb (doomed m) then KConsistent else KInconsistent)
+Definition cls_a (a : av) : mclass :=
+  if negb (a_live a) then KDead
+  else if a_waiting_join a then (if a_f_e a then KConsistent else KUnattached)
+  else match a_ib a with
+       | IJ 0%Z => if a_f_e a then (if a_g_eq a && negb (a_f_jp a) then KConsistent else KInconsistent) else KUnattached
+       | _ => if negb (a_idz a) && a_id_e a then
+                (if a_gen_eq a && negb (a_id_jp a) && negb (doomed_a a) then KConsistent else KInconsistent)
               else KUnattached
        end.
 
 Definition dead_code_hb (o : option Z) : bool := match o with Some c => has ACoordinatorDead (heartbeatDispatch c) | None => false end.
 Definition dead_code_cm (o : option Z) : bool := match o with Some c => has ACoordinatorDead (commitDispatch c) | None => false end.
-Definition dead_code_main (o : option reply) : bool :=
+Definition dead_code_main (o : ibk) : bool :=
   match o with
-  | Some (RpJoin c _ _) => negb (has ARetryJoin (joinRetryDispatch c)) && has ACoordinatorDead (joinDispatch c)
-  | Some (RpSync c) => has ACoordinatorDead (syncDispatch c)
-  | None => false end.
-Definition ck_clean (m : member) : bool :=
-  ck_ok (m_ck m) && negb (dead_code_main (m_inbox m)) && negb (dead_code_hb (m_hbin m)) && negb (dead_code_cm (m_cmin m)).
+  | IJ c => negb (has ARetryJoin (joinRetryDispatch c)) && has ACoordinatorDead (joinDispatch c)
+  | IS c => has ACoordinatorDead (syncDispatch c)
+  | INone => false end.
+Definition ck_clean_a (a : av) : bool :=
+  ck_ok (a_ck a) && negb (dead_code_main (a_ib a)) && negb (dead_code_hb (a_hbin a)) && negb (dead_code_cm (a_cmin a)).
 Definition rejoin_code (l : list act) : bool := has ARequestRejoin l || has AResetGeneration l.
-Definition will_join (m : member) : bool :=
-  ((ph_eqb (m_ph m) PIdle || ph_eqb (m_ph m) PSyncSent) && m_rejoin m)
-  || (match m_inbox m with
-      | Some (RpJoin c _ _) => negb (has ASuccess (joinDispatch c)) || has ARetryJoin (joinRetryDispatch c)
-      | Some (RpSync c) => negb (has ASuccess (syncDispatch c))
-      | None => false end)
-  || (match m_hbin m with Some c => rejoin_code (heartbeatDispatch c) | None => false end)
-  || (match m_cmin m with Some c => rejoin_code (commitDispatch c) | None => false end).
-Definition on_track (m : member) : bool :=
-  ck_clean m
-  && (match m_ph m, m_inbox m with
-      | PJoinSent, Some (RpJoin 0%Z _ _) => true
+Definition will_join_a (a : av) : bool :=
+  ((ph_eqb (a_ph a) PIdle || ph_eqb (a_ph a) PSyncSent) && a_rejoin a)
+  || (match a_ib a with
+      | IJ c => negb (has ASuccess (joinDispatch c)) || has ARetryJoin (joinRetryDispatch c)
+      | IS c => negb (has ASuccess (syncDispatch c))
+      | INone => false end)
+  || (match a_hbin a with Some c => rejoin_code (heartbeatDispatch c) | None => false end)
+  || (match a_cmin a with Some c => rejoin_code (commitDispatch c) | None => false end).
+Definition on_track_a (a : av) : bool :=
+  ck_clean_a a
+  && (match a_ph a, a_ib a with
+      | PJoinSent, IJ 0%Z => true
       | PJoined, _ => true
-      | PSyncSent, None => negb (m_rejoin m)
+      | PSyncSent, INone => negb (a_rejoin a)
       | _, _ => false end).
 
 (* potential rebalance triggers of one member: 1 = may cause one more rebalance, 2 = may also leave an id behind *)
-Definition tw (c : coord) (m : member) : nat :=
-  match cls c m with
+Definition tw_a (a : av) : nat :=
+  match cls_a a with
   | KDead => 0
   | KUnattached => 1
   | KInconsistent => 2
   | KConsistent =>
-      match c_st c with
-      | CStable => if will_join m || negb (ck_clean m) then 1 else 0
-      | CCompleting => if on_track m then 0 else 1
+      match a_st a with
+      | CStable => if will_join_a a || negb (ck_clean_a a) then 1 else 0
+      | CCompleting => if on_track_a a then 0 else 1
       | _ => 0
       end
   end.
+Definition tw (c : coord) (m : member) : nat := tw_a (absm c m).
 
 Definition sum (l : list nat) : nat := fold_right Nat.add 0 l.
 Definition count_orphans (s : state) : nat := length (filter (orphan (s_ms s)) (c_ents (s_c s))).
@@ -636,66 +684,93 @@ Definition erank (c : coord) : nat :=
   match c_st c with CPreparing => 2 | CCompleting => 1 | _ => 0 end.
 
 (* coordinator-knowledge potential *)
-Definition ckp (m : member) : nat :=
-  let stale := ck_stale (m_ck m) in
-  (match m_ck m with CkNone => 1 | _ => 0 end)
-  + (if dead_code_main (m_inbox m) then 2
-     else if stale && is_none (m_inbox m) && (ph_eqb (m_ph m) PIdle || ph_eqb (m_ph m) PJoined) then 3 else 0)
-  + (if dead_code_hb (m_hbin m) then 2 else if stale && m_hb m && is_none (m_hbin m) then 3 else 0)
-  + (if dead_code_cm (m_cmin m) then 2 else if stale && ph_eqb (m_ph m) PIdle && is_none (m_cmin m) then 3 else 0).
+Definition ckp_a (a : av) : nat :=
+  let stale := ck_stale (a_ck a) in
+  let nib := match a_ib a with INone => true | _ => false end in
+  (match a_ck a with CkNone => 1 | _ => 0 end)
+  + (if dead_code_main (a_ib a) then 2
+     else if stale && nib && (ph_eqb (a_ph a) PIdle || ph_eqb (a_ph a) PJoined) then 3 else 0)
+  + (if dead_code_hb (a_hbin a) then 2 else if stale && a_hb a && is_none (a_hbin a) then 3 else 0)
+  + (if dead_code_cm (a_cmin a) then 2 else if stale && ph_eqb (a_ph a) PIdle && is_none (a_cmin a) then 3 else 0).
 
 (* rank of the main (join/sync) activity inside the current coordinator epoch *)
-Definition sync_will_fail (c : coord) (id gen : nat) : bool :=
-  negb (validate c id gen =? 0)%Z || match c_st c with CStable | CCompleting => false | _ => true end.
-Definition idle_rank (c : coord) (m : member) : nat :=      (* m in PIdle *)
-  if m_rejoin m then
-    if m_id m =? 0 then 20
-    else if memb (m_id m) (ids (c_ents c)) then
-      (match cls c m with KConsistent => 14 | _ => 24 end)
-    else if memb (m_id m) (c_pend c) then 18 else 22
-  else if (hb_code c m =? 0)%Z
-          && (match m_hbin m with Some code => hb_silent m code | None => true end)
-          && (match m_cmin m with Some code => cm_silent m code | None => true end) then 0 else 40.
-Definition joined_rank (c : coord) (id gen : nat) : nat := if sync_will_fail c id gen then 30 else 8.
-Definition main_rank (c : coord) (m : member) : nat :=
-  match m_ph m, m_inbox m with
-  | PIdle, _ => idle_rank c m
-  | PJoinSent, None => 10
-  | PJoinSent, Some (RpJoin code g x) =>
+Definition sync_will_fail_a (st : cstate) (idz id_e gen_eq : bool) : bool :=
+  negb (validate_a idz id_e gen_eq =? 0)%Z || match st with CStable | CCompleting => false | _ => true end.
+Definition idle_rank_a (a : av) : nat :=      (* a in PIdle *)
+  if a_rejoin a then
+    if a_idz a then 20
+    else if a_id_e a then (match cls_a a with KConsistent => 14 | _ => 24 end)
+    else if a_id_p a then 18 else 22
+  else if (hb_code_a a =? 0)%Z
+          && (match a_hbin a with Some code => hb_silent_a a code | None => true end)
+          && (match a_cmin a with Some code => cm_silent_a a code | None => true end) then 0 else 40.
+Definition joined_rank_a (st : cstate) (idz id_e gen_eq : bool) : nat := if sync_will_fail_a st idz id_e gen_eq then 30 else 8.
+(* the member as it will be right after a successful SyncGroup reply *)
+Definition after_sync_ok (a : av) : av :=
+  mkA (a_live a) PIdle (a_rejoin a) (a_ck a) true INone (a_hbin a) (a_cmin a) (a_st a) (a_G0 a)
+      (a_idz a) (a_id_e a) (a_id_p a) (a_id_jp a) (a_id_sp a) (a_genz a) (a_gen_eq a) (a_gen_le a)
+      (a_fz a) (a_f_e a) (a_f_p a) (a_f_jp a) (a_f_sp a) (a_f_id a) (a_gz a) (a_g_eq a) (a_g_le a).
+Definition main_rank_a (a : av) : nat :=
+  match a_ph a, a_ib a with
+  | PIdle, _ => idle_rank_a a
+  | PJoinSent, INone => 10
+  | PJoinSent, IJ code =>
       if has ARetryJoin (joinRetryDispatch code) then 19
-      else if has ASuccess (joinDispatch code) then S (joined_rank c x g)
+      else if has ASuccess (joinDispatch code) then S (joined_rank_a (a_st a) (a_fz a) (a_f_e a) (a_g_eq a))
       else if resets (joinDispatch code) then 21 else 17
-  | PJoined, _ => joined_rank c (m_id m) (m_gen m)
-  | PSyncSent, None => 6
-  | PSyncSent, Some (RpSync code) =>
-      if has ASuccess (syncDispatch code) then
-        5 + idle_rank c (set_hb true (set_ph PIdle (set_inbox None m)))
-      else 29
+  | PJoined, _ => joined_rank_a (a_st a) (a_idz a) (a_id_e a) (a_gen_eq a)
+  | PSyncSent, INone => 6
+  | PSyncSent, IS code => if has ASuccess (syncDispatch code) then 5 + idle_rank_a (after_sync_ok a) else 29
   | _, _ => 0
   end.
-Definition hbp (c : coord) (m : member) : nat :=
-  let next := if m_hb m && negb (hb_silent (set_hbin (Some 0%Z) m) (hb_code c m)) then 2 else 0 in
-  match m_hbin m with
-  | Some code => if hb_silent m code then next else 1
+Definition hbp_a (a : av) : nat :=
+  let next := if a_hb a && negb (hb_silent_a a (hb_code_a a)) then 2 else 0 in
+  match a_hbin a with
+  | Some code => if hb_silent_a a code then next else 1
   | None => next
   end.
-Definition cmp (c : coord) (m : member) : nat :=
-  let next := if ph_eqb (m_ph m) PIdle && can_commit m && negb (cm_silent (set_cmin (Some 0%Z) m) (cm_code c m)) then 2 else 0 in
-  match m_cmin m with
-  | Some code => if cm_silent m code then next else 1
+Definition cmp_a (a : av) : nat :=
+  let next := if ph_eqb (a_ph a) PIdle && a_can_commit a && negb (cm_silent_a a (cm_code_a a)) then 2 else 0 in
+  match a_cmin a with
+  | Some code => if cm_silent_a a code then next else 1
   | None => next
   end.
-Definition mp (c : coord) (m : member) : nat :=
-  if m_live m then ckp m * 64 + main_rank c m + hbp c m + cmp c m else 0.
+Definition mp_a (a : av) : nat :=
+  if a_live a then ckp_a a * 64 + main_rank_a a + hbp_a a + cmp_a a else 0.
+Definition mp (c : coord) (m : member) : nat := mp_a (absm c m).
 
 Definition mu (s : state) : nat :=
   (trig s * 4 + erank (s_c s)) * (1024 * S (length (s_ms s))) + sum (map (mp (s_c s)) (s_ms s)).
 
+(* number of steps of an execution that are not no-ops *)
+Fixpoint count_real (s : state) (ls : list label) : nat :=
+  match ls with
+  | [] => 0
+  | l :: r => match step s l with
+              | Some s' => (if noop_b s l then 0 else 1) + count_real s' r
+              | None => 0
+              end
+  end.
+
+(* replay with the per-step facts checked on the way: result (accepted observations, all accepted, first index at
+   which a successor violated inv_b / the variant did not behave (0 = none, kind), final state) *)
+Fixpoint replay_check (n : nat) (s : state) (os : list obs) : nat * bool * (nat * nat) * state :=
+  match os with
+  | [] => (n, true, (0, 0), s)
+  | o :: r =>
+      match ostep s o with
+      | None => (n, false, (0, 0), s)
+      | Some s' =>
+          if negb (inv_b s') then (n, true, (S n, 1), s)
+          else if noop_b s (lab o) then (if mu s' <=? mu s then replay_check (S n) s' r else (n, true, (S n, 3), s))
+          else (if mu s' <? mu s then replay_check (S n) s' r else (n, true, (S n, 2), s))
+      end
+  end.
+
 (* ------------------------------------------------------------------------------------------ *)
 (* exploration helpers (used by the harness to test the variant on concrete states; not in proofs) *)
 Definition all_ids (s : state) : list nat :=
-  ids (c_ents (s_c s)) ++ c_pend (s_c s)
-  ++ flat_map (fun m => m_id m :: m_wait m :: match m_inbox m with Some (RpJoin _ _ x) => [x] | _ => [] end) (s_ms s).
+  ids (c_ents (s_c s)) ++ c_pend (s_c s) ++ flat_map (fun m => [m_id m; m_focus m]) (s_ms s).
 Definition max_id (s : state) : nat := fold_right Nat.max 0 (all_ids s).
 Definition all_labels (s : state) : list label :=
   flat_map (fun m => let i := m_name m in
@@ -733,14 +808,4 @@ Fixpoint explore (depth : nat) (s : state) : list (state * nat * label) :=
                                   end
                       end) (all_labels s)
           end
-  end.
-
-(* number of steps of an execution that are not no-ops *)
-Fixpoint count_real (s : state) (ls : list label) : nat :=
-  match ls with
-  | [] => 0
-  | l :: r => match step s l with
-              | Some s' => (if noop_b s l then 0 else 1) + count_real s' r
-              | None => 0
-              end
   end.
